@@ -187,6 +187,14 @@ func Universe(si *world.SchemaInfo, profile string) []Slot {
 				add(P(E("k2", "a", a, "b", b), E("val")), "w1", "w2")
 			}
 		}
+		// key values in which a separator moves between adjacent keys, or between a key value and a child name:
+		// k2o[a=a/b][b=c] vs k2o[a=a][b=b/c], k1[name=a/val] vs k1[name=a]/val (and the same with _ and ,-free variants)
+		add(P(E("k2o", "a", "a/b", "b", "c"), E("val")), "w1", "w2")
+		add(P(E("k2o", "a", "a", "b", "b/c"), E("val")), "w3", "w4")
+		add(P(E("k2o", "a", "a_b", "b", "c"), E("val")), "w1", "w2")
+		add(P(E("k2o", "a", "a", "b", "b_c"), E("val")), "w3", "w4")
+		add(P(E("k1", "name", "a/val"), E("num")), "1", "2")
+		add(P(E("k1", "name", "a_val"), E("num")), "1", "2")
 		add(P(E("k3", "z", "q", "m", "1", "a", "r"), E("val")), "w1", "w2")
 		add(P(E("k3", "z", "r", "m", "2", "a", "q"), E("val")), "w1", "w2")
 		add(P(E("ch"), E("alphabet")), "z1", "z2")
